@@ -176,7 +176,7 @@ def rule_set_err(ctx):
         for s in b["s"]:
             if s["k"] == "assign" and s["p"].get("pr") and s["p"]["pr"][0] == "*":
                 t = T.rvalue(s["r"])
-                if t[0] == "agg" and t[2] == "Some" and any(x == ("param", 2, "err") for x in subterms(t)):
+                if t[0] == "agg" and t[2] == "Some" and any(is_new(x) for x in subterms(t)):
                     store.append(bi)
     cancel = [c["bb"] for c in T.calls() if c["q"].endswith("ctx::Ctx::cancel")]
     ctx.floor(R, "store sites", len(store), 1)
@@ -194,6 +194,38 @@ def rule_set_err(ctx):
         ok = (("store" in reach) == exp) and (("cancel" in reach) == exp)
         ctx.ob(R, "row %s" % key, ok, "%s" % ("stored and cancelled" if exp else "ignored") if ok else
                "with %s set_err reaches %s; specified: %s (a panic is never overwritten, an error is overwritten only by a panic)" % (key, sorted(reach), "store+cancel" if exp else "ignore"), f.loc())
+
+
+def rule_set_err_atomic(ctx):
+    R = "C17.8"
+    ctx.rule(R, "set_err decides and records under ONE acquisition of the error mutex: the lock that is held while the recorded failure is inspected is still held when the new failure is stored (otherwise a task that fails because of the cancellation can overwrite the first failure)")
+    f = ctx.fn(TG + "::set_err")
+    T = ctx.T(f)
+    cfg = ctx.cfg(f)
+    locks = [c for c in T.calls() if c["q"] == "std::sync::Mutex::lock" and chain(T.args_of(c)[0])[1][-1:] == ["err"]]
+    ctx.ob(R, "one lock acquisition", len(locks) == 1, "the err mutex is locked once in set_err" if len(locks) == 1 else
+           "set_err locks the err mutex %d times: the check of the recorded failure and the store are not atomic - a later failure can replace the first one" % len(locks), f.loc())
+    if len(locks) != 1:
+        return
+    guards = [l for l in range(len(f.locals)) if f.locals[l].s.startswith("std::sync::MutexGuard<")]
+    stores = []
+    for bi, b in enumerate(f.blocks):
+        if b.get("cleanup"):
+            continue
+        for st in b["s"]:
+            if st["k"] == "assign" and st["p"].get("pr") and st["p"]["pr"][0] == "*":
+                t = T.rvalue(st["r"])
+                if t[0] == "agg" and t[2] == "Some":
+                    stores.append(bi)
+    dropped_early = False
+    for sb in stores:
+        region = Q.region_between(cfg, [locks[0]["bb"]], sb)
+        for bi in region:
+            t = f.blocks[bi]["t"]
+            if t["k"] == "drop" and not t["p"].get("pr") and t["p"]["l"] in guards and bi != sb:
+                dropped_early = True
+    ctx.ob(R, "guard held until the store", bool(stores) and not dropped_early, "the MutexGuard is not dropped between the inspection and the store" if stores and not dropped_early else
+           "the err MutexGuard is released before the new failure is stored", f.loc())
 
 
 def rule_guards(ctx):
@@ -244,4 +276,4 @@ def rule_result_mapping(ctx):
         ctx.ob(R, "%s Ok payload" % name, okt, "Ok carries the joined root task's value" if okt else "Ok does not carry the root task's result", f.loc())
 
 
-RULES = [("C17.1", rule_join), ("C17.2", rule_spawn_wrapping), ("C17.3", rule_who_spawns), ("C17.4", rule_set_err), ("C17.5", rule_guards), ("C17.7", rule_result_mapping)]
+RULES = [("C17.1", rule_join), ("C17.2", rule_spawn_wrapping), ("C17.3", rule_who_spawns), ("C17.4", rule_set_err), ("C17.8", rule_set_err_atomic), ("C17.5", rule_guards), ("C17.7", rule_result_mapping)]
